@@ -90,6 +90,14 @@ impl forwarder::UdpDatagramPipeShared for DatagramTransceiverShared {
         #[cfg(trusttunnel_verif)]
         let mut verif_outcome =
             crate::verif::udp::Outcome::new("AssocOpen", meta.source, meta.destination);
+        // the TCP connect and the SOCKS5 handshake that follow are real await points
+        #[cfg(trusttunnel_verif)]
+        crate::verif_emit!(
+            "AssocOpenStart",
+            "\"s\":\"{}\",\"d\":\"{}\"",
+            meta.source,
+            meta.destination
+        );
 
         let socket = match socks5_client::connect(
             TcpStream::connect(socks_settings(&self.context.settings).address).await?,
